@@ -1,12 +1,10 @@
-(* C19 -- the bounded binary64 theorem assembled from FloatGrid1..4 and lifted over p, mult;
+(* C19 -- the bounded binary64 theorem assembled from FloatGrid1..16 and lifted over p, mult;
    the refutation of the unrepaired (np.arange) formula. *)
-From Coq Require Import PrimFloat List Arith Bool Lia.
+From Coq Require Import PrimFloat QArith List Arith Bool Lia.
 From Verif.lib Require Import NpCore NpF.
-From Verif.C19 Require Import FloatGrid1 FloatGrid2 FloatGrid3 FloatGrid4.
+From Verif.C19 Require Import FloatGridDefs FloatGrid1 FloatGrid2 FloatGrid3 FloatGrid4 FloatGrid5 FloatGrid6 FloatGrid7 FloatGrid8 FloatGrid9 FloatGrid10 FloatGrid11 FloatGrid12 FloatGrid13 FloatGrid14 FloatGrid15 FloatGrid16.
 Import ListNotations.
 Open Scope float_scope.
-
-Definition grid : list (float * float) := grid1 ++ grid2 ++ grid3 ++ grid4.
 
 Lemma grid_lookup nmax g : grid_check nmax g = true ->
   forall a b n, In (a, b) g -> (1 <= n <= nmax)%nat -> bp_ok a b n = true.
@@ -15,23 +13,45 @@ Proof.
   specialize (G _ Hg). rewrite forallb_forall in G. apply (G n). apply in_seq. lia.
 Qed.
 
-Lemma grid_bp_ok a b n : In (a, b) grid -> (1 <= n <= 2000)%nat -> bp_ok a b n = true.
+Lemma chunk_lookup k qa qb n : grid_check 2000 (map f_of_qq (chunk k)) = true ->
+  In (qa, qb) (chunk k) -> (1 <= n <= 2000)%nat -> bp_ok (f_of_q qa) (f_of_q qb) n = true.
 Proof.
-  intros Hg Hn. unfold grid in Hg. repeat (apply in_app_or in Hg; destruct Hg as [Hg|Hg]).
-  - exact (grid_lookup _ _ grid1_ok a b n Hg Hn).
-  - exact (grid_lookup _ _ grid2_ok a b n Hg Hn).
-  - exact (grid_lookup _ _ grid3_ok a b n Hg Hn).
-  - exact (grid_lookup _ _ grid4_ok a b n Hg Hn).
+  intros G Hin Hn. apply (grid_lookup _ _ G); [|exact Hn].
+  change (f_of_q qa, f_of_q qb) with (f_of_qq (qa, qb)). apply in_map. exact Hin.
 Qed.
 
-Lemma make_knots_float_bounded_l a b n p mult :
-  In (a, b) grid -> (1 <= n <= 2000)%nat -> (1 <= mult)%nat ->
+Lemma grid_bp_ok qa qb n : In (qa, qb) grid_all -> (1 <= n <= 2000)%nat ->
+  bp_ok (f_of_q qa) (f_of_q qb) n = true.
+Proof.
+  intros Hg Hn. rewrite grid_all_chunks in Hg.
+  repeat (apply in_app_or in Hg; destruct Hg as [Hg|Hg]).
+  - exact (chunk_lookup 0 qa qb n grid1_ok Hg Hn).
+  - exact (chunk_lookup 1 qa qb n grid2_ok Hg Hn).
+  - exact (chunk_lookup 2 qa qb n grid3_ok Hg Hn).
+  - exact (chunk_lookup 3 qa qb n grid4_ok Hg Hn).
+  - exact (chunk_lookup 4 qa qb n grid5_ok Hg Hn).
+  - exact (chunk_lookup 5 qa qb n grid6_ok Hg Hn).
+  - exact (chunk_lookup 6 qa qb n grid7_ok Hg Hn).
+  - exact (chunk_lookup 7 qa qb n grid8_ok Hg Hn).
+  - exact (chunk_lookup 8 qa qb n grid9_ok Hg Hn).
+  - exact (chunk_lookup 9 qa qb n grid10_ok Hg Hn).
+  - exact (chunk_lookup 10 qa qb n grid11_ok Hg Hn).
+  - exact (chunk_lookup 11 qa qb n grid12_ok Hg Hn).
+  - exact (chunk_lookup 12 qa qb n grid13_ok Hg Hn).
+  - exact (chunk_lookup 13 qa qb n grid14_ok Hg Hn).
+  - exact (chunk_lookup 14 qa qb n grid15_ok Hg Hn).
+  - exact (chunk_lookup 15 qa qb n grid16_ok Hg Hn).
+Qed.
+
+Lemma make_knots_float_bounded_l qa qb n p mult :
+  In (qa, qb) grid_all -> (1 <= n <= 2000)%nat -> (1 <= mult)%nat ->
+  let a := f_of_q qa in let b := f_of_q qb in
   let kv := make_knots_f p a b n mult in
   sorted_f kv = true /\ mesh_f kv = bp_f a b n /\ length (mesh_f kv) = (n + 1)%nat /\
   strict_f (mesh_f kv) = true /\
   length kv = (2 * (p + 1) + mult * (n - 1))%nat /\ last kv a = b /\ nth 0 kv b = a.
 Proof.
-  intros Hg Hn Hm. apply make_knots_f_lift; [lia|exact Hm|]. apply grid_bp_ok; assumption.
+  intros Hg Hn Hm. cbv zeta. apply make_knots_f_lift; [lia|exact Hm|]. apply grid_bp_ok; assumption.
 Qed.
 
 (* the formula of the unrepaired source (np.arange with a fractional step) yields one
